@@ -26,7 +26,12 @@ fn genuine_for(e: &Exec, recv: Side, n: u64) -> Option<usize> {
 fn judge() -> seqmc::Judge {
     Arc::new(|e: &Exec| {
         // the property names the exhaustion error only: the class of other failures is not judged here
-        let names_exhaustion = |m: &&crate::exec::Mismatch| m.cat != Cat::WrongErrClass || matches!(e.steps.get(m.step).map(|s| &s.expect), Some(Expect::Err(c)) if c.contains(&EClass::Exhausted));
+        let names_exhaustion = |m: &&crate::exec::Mismatch| match m.cat {
+            Cat::WrongErrClass => matches!(e.steps.get(m.step).map(|s| &s.expect), Some(Expect::Err(c)) if c.contains(&EClass::Exhausted)),
+            // a usable nonce refused is this property's business only if it is refused as exhausted
+            Cat::ExpectedOkGotErr => matches!(e.steps.get(m.step).map(|s| &s.real), Some(Real::Err(EClass::Exhausted))),
+            _ => true,
+        };
         let mut v: Vec<(String, String)> = sess::filter(e, &CATS).into_iter().filter(names_exhaustion).map(|m| (sess::signature(e, m), format!("{}: {}", e.cfg.name, m.detail))).collect();
         // the reserved nonce must never reach the cipher's encrypt/decrypt (rekey is logged separately)
         for s in SIDES {
